@@ -166,6 +166,30 @@ def check(chk):
     ok = ok and len(subs) == 1 and all(fa.knows('self.is_shutdown') is False for fa, _ in fl.at(subs[0]))
     chk.judge(ok, 'C45.refuse', run, 'scheduler: a dequeued task is not executed after shutdown', 'scheduled tasks run after shutdown')
 
+    # a session is the largest thing a cluster opens: connect() tests the flag before it builds one, and must look again afterwards,
+    # because shutdown() can sweep `sessions` in between
+    chk.rule('C45.session', 'Cluster.connect re-tests is_shutdown under the cluster lock after the session exists and shuts the session down when the cluster was shut down meanwhile')
+    cl_m = chk.repo.mod('cassandra/cluster.py')
+    cn = cl_m.func('Cluster.connect')
+    ns = cl_m.func('Cluster._new_session')
+    created_at = [n for n in body_walk(cn) if isinstance(n, ast.Call) and src(n.func) == 'self._new_session']
+    if len(created_at) != 1:
+        raise AnalysisError('Cluster.connect: session creation not found')
+    line0 = created_at[0].lineno
+    ok_ = False
+    for f_ in (cn, ns):
+        for w in [x for x in body_walk(f_) if isinstance(x, ast.With) and any(src(i.context_expr) == 'self._lock' for i in x.items)]:
+            if f_ is cn and w.lineno < line0:
+                continue
+            reads = [a for a in ast.walk(w) if isinstance(a, ast.Attribute) and a.attr == 'is_shutdown' and src(a.value) == 'self']
+            if reads and any(isinstance(c_, ast.Call) and isinstance(c_.func, ast.Attribute) and c_.func.attr == 'shutdown' and src(c_.func.value) == 'session'
+                             for c_ in body_walk(f_) if getattr(c_, 'lineno', 0) > w.lineno):
+                ok_ = True
+    chk.judge(ok_, 'C45.session', cn, 'connect(): after _new_session, is_shutdown is read again under self._lock and the new session is shut down when set',
+              'the only test of is_shutdown is before the session is built: a shutdown() that runs in between sweeps an empty `sessions`, and the session created '
+              'afterwards - with its pools and connections - is returned to the caller and never closed')
+
+
 
 def _may_raise_call(st):
     return any(isinstance(x, ast.Call) and not src(x.func).startswith('log.') and src(x.func) not in ('weakref.ref', 'partial', 'weakref.proxy') for x in ast.walk(st))
